@@ -33,7 +33,7 @@ CHECKS = {
    technique='TLA+ reference interpretation model-checked by TLC + TLC trace validation of recorded interpret results'),
  'C02': dict(engine='layout', design='5 C02, 4.5-4.6',
    text='The configure algorithm is a PlusCal machine (MC_Configure, MODE=roundtrip): TLC checks on every well-formed tree of a bounded instance that running the machine on the reference reading never improvises and returns the normal form, plus termination; recorded configure(interpret(t)) and encode(decode(s)) of the real code on TLC-exported, corpus and random well-formed trees under five kinds of model are judged by TLC against Norm(t) (well-formedness is a specification predicate).',
-   note='normal form = drop an empty concept slot only; the machine models layout markers, alignments are covered by the trace judge only',
+   note='normal form = drop an empty concept slot only; F25 (an alignment index written with a leading zero is not reproduced) is an open known finding with its own signature; the machine models layout markers, alignments are covered by the trace judge only',
    technique='PlusCal machine of configure model-checked by TLC + TLC trace validation of recorded round trips'),
  'C03': dict(engine='layout', design='5 C03, 4.6',
    text='TLC checks on the PlusCal machine of configure (MC_Configure, MODE=corrupt) that for every bounded graph, triple order, marker assignment and top the result denotes the same graph or LayoutError is raised exactly when the graph is not connected, with termination; the real encode is run on random well-formed connected graphs in shuffled orders from every top with typed constants (0, 0.0, -1, None, strings) and on decoded graphs, and TLC judges the recorded tree, text, re-parse and re-decode with the postcondition EncodesTo. A share of the graphs is reached by an edit history on one live object (queried and encoded before the in-place edit) or is a deep copy / pickle round trip of the graph built.',
